@@ -151,6 +151,18 @@ ADDENDA7 = {
 for _pid, _x in ADDENDA7.items():
     _tech, _text, _ref = CLAIMED[_pid]
     CLAIMED[_pid] = (_tech, _text + _x, _ref)
+ADDENDA8 = {
+ "C02": " Round 8: the judging options handed to setProtocolOptions reach the factory attribute of their name (cells over option x current values of the others).",
+ "C03": " Round 8: every forward_for entry the constructor admits is read back by parse() (26 cells).",
+ "C04": " Round 8: requests issued for a decorated object carry each method's own URI and options (cells shared with C11.7 / C10.5).",
+ "C05": " Round 8: close options and timeouts reach the factory attribute of their name.",
+ "C15": " Round 8: mask options reach the factory attribute of their name.",
+ "C16": " Round 8: payload limits reach the factory attribute of their name.",
+ "C17": " Round 8: configured timeouts reach the factory attribute of their name, whatever the other options are (13 options x 20-25 cells).",
+}
+for _pid, _x in ADDENDA8.items():
+    _tech, _text, _ref = CLAIMED[_pid]
+    CLAIMED[_pid] = (_tech, _text + _x, _ref)
 NA_REASON = {}
 ALL = [f"C{i:02d}" for i in range(1, 21)]
 def main():
